@@ -3,8 +3,12 @@ package main
 import (
 	"bytes"
 	"fmt"
+	"io"
 	"math/rand"
+	gonet "net"
+	"os"
 	"reflect"
+	"syscall"
 
 	"github.com/lugu/qiloop/bus"
 	"github.com/lugu/qiloop/bus/directory"
@@ -148,8 +152,52 @@ func truncClass(t *rc.Type) string {
 	return s
 }
 
+// unixPair returns two connected unix stream sockets.
+func unixPair() (gonet.Conn, gonet.Conn, error) {
+	fds, err := syscall.Socketpair(syscall.AF_UNIX, syscall.SOCK_STREAM, 0)
+	if err != nil {
+		return nil, nil, err
+	}
+	fa, fb := os.NewFile(uintptr(fds[0]), "a"), os.NewFile(uintptr(fds[1]), "b")
+	defer fa.Close()
+	defer fb.Close()
+	a, err := gonet.FileConn(fa)
+	if err != nil {
+		return nil, nil, err
+	}
+	b, err := gonet.FileConn(fb)
+	if err != nil {
+		a.Close()
+		return nil, nil, err
+	}
+	return a, b, nil
+}
+
+// tcpPair returns the two ends of a fresh loopback TCP connection.
+func tcpPair(l gonet.Listener) (gonet.Conn, gonet.Conn, error) {
+	type res struct {
+		c   gonet.Conn
+		err error
+	}
+	ch := make(chan res, 1)
+	go func() {
+		c, err := l.Accept()
+		ch <- res{c, err}
+	}()
+	a, err := gonet.Dial("tcp", l.Addr().String())
+	if err != nil {
+		return nil, nil, err
+	}
+	r := <-ch
+	if r.err != nil {
+		a.Close()
+		return nil, nil, r.err
+	}
+	return a, r.c, nil
+}
+
 func c08(c *wk.Ctx) {
-	c.Note("rule", "valid encodings (messages, dynamic values, typed data of random signatures, MetaObject, ObjectReference, ServiceInfo, CapabilityMap, Go values through the reflection decoder) are cut at every position k<len when len<=512, otherwise at every length/count field boundary +-1, around 4 KiB .. 128 KiB into every string or buffer longer than 4 KiB, plus 64 random positions; stream long = data whose last element is a string / buffer of 64 KiB .. 200 KiB; each strict prefix is fed to the real decoder, which must return an error. Evaluations count prefixes. Distinct non-trivial = distinct (entry point, signature, length) whose full encoding the decoder accepts.")
+	c.Note("rule", "valid encodings (messages, dynamic values, typed data of random signatures, MetaObject, ObjectReference, ServiceInfo, CapabilityMap, Go values through the reflection decoder) are cut at every position k<len when len<=512, otherwise at every length/count field boundary +-1, around 4 KiB .. 128 KiB into every string or buffer longer than 4 KiB, plus 64 random positions; stream socket = messages cut at the header boundary, inside the payload and one byte before the end, sent over a unix socket pair / a TCP loopback connection whose peer then closes (read directly and through ConnStream); stream long = data whose last element is a string / buffer of 64 KiB .. 200 KiB; each strict prefix is fed to the real decoder, which must return an error. Evaluations count prefixes. Distinct non-trivial = distinct (entry point, signature, length) whose full encoding the decoder accepts.")
 	exh := 512
 	scal := append(append([]rc.Kind{}, rc.AllScalars...), rc.Dyn)
 	inner := rc.GenOpts{Depth: 2, Width: 3, ComparableKeys: true, MaxAnonNest: 3}
@@ -169,6 +217,71 @@ func c08(c *wk.Ctx) {
 		if c.WantSample() && i%100 == 0 {
 			c.Sample(map[string]interface{}{"stream": "message", "frame_len": len(enc)})
 		}
+	})
+
+	// socket: the truncated message arrives over a real connection (unix socket pair, TCP loopback) whose
+	// peer closes after the prefix: transports with deadlines and half-closes take other code paths than
+	// in-memory readers
+	var tcpL gonet.Listener
+	defer func() {
+		if tcpL != nil {
+			tcpL.Close()
+		}
+	}()
+	c.Cases("socket", c.Pick(300, 6000), func(i int, rng *rand.Rand) {
+		h := genHeader(rng)
+		p := genPayload(rng, 300)
+		if len(p) == 0 {
+			p = []byte{1, 2, 3}
+		}
+		enc := rc.Frame(h, p)
+		ks := map[int]bool{0: true, 27: true, 28: true, 29: true, len(enc) - 1: true, 28 + rng.Intn(len(p)): true, rng.Intn(len(enc)): true}
+		kind := []string{"unix", "tcp"}[i%2]
+		wrap := i%4 < 2
+		for k := range ks {
+			if k < 0 || k >= len(enc) {
+				continue
+			}
+			var a, b gonet.Conn
+			var err error
+			if kind == "unix" {
+				a, b, err = unixPair()
+			} else {
+				if tcpL == nil {
+					tcpL, err = gonet.Listen("tcp", "127.0.0.1:0")
+				}
+				if err == nil {
+					a, b, err = tcpPair(tcpL)
+				}
+			}
+			if err != nil {
+				c.Inconclusive("socket", i, "connection: "+err.Error())
+				return
+			}
+			go func(k int) {
+				b.Write(enc[:k])
+				b.Close()
+			}(k)
+			var m qnet.Message
+			var rerr error
+			var r io.Reader = a
+			if wrap {
+				r = qnet.ConnStream(a)
+			}
+			pv, stack := wk.Try(func() { rerr = m.Read(r) })
+			a.Close()
+			c.Eval(1)
+			detail := map[string]interface{}{"transport": kind, "through_ConnStream": wrap, "cut": k, "len": len(enc)}
+			if pv != nil {
+				c.Viol("socket", i, "cut=panic/Message.Read/"+wk.PanicSite(stack), fmt.Sprintf("Message.Read panicked on a truncated message from a %s connection: %v", kind, pv), detail)
+				return
+			}
+			if rerr == nil {
+				c.Viol("socket", i, "accepted/Message.Read/"+kind+"-connection", fmt.Sprintf("Message.Read accepted a %d-byte prefix of a %d-byte message received over a %s connection that was then closed", k, len(enc), kind), detail)
+				return
+			}
+		}
+		c.Nontrivial(wk.Hash64("socket", kind, wrap, len(enc)))
 	})
 
 	c.Cases("value", c.Pick(1500, 50000), func(i int, rng *rand.Rand) {
